@@ -242,7 +242,8 @@ def run_one(pool, spec):
     if ignored:
         bounds["ignored_cbmc_float_instrumentation_failures"] = len(ignored)
     sat_covers = [c["desc"] for c in covers if c["status"] == "SATISFIED"]
-    bad_covers = [c for c in covers if c["status"] != "SATISFIED"]
+    # covers whose message starts with "opt:" are informational (they sit in code that is dead for some instantiations)
+    bad_covers = [c for c in covers if c["status"] != "SATISFIED" and not c["desc"].strip('"').startswith("opt:")]
     if spec.expect_panic:
         # should_panic harness: Kani reports SUCCESSFUL iff a panic was reachable
         if verdict == "SUCCESSFUL":
